@@ -62,6 +62,13 @@ CHECKS = {
         "note": "exec_allows_no_decreases_clause on apply_fixpoint (termination not claimed); closure assumed total and state-independent.",
         "technique": "contract-based deductive verification (Verus) of mechanically extracted real code",
     },
+    "C11": {
+        "text": "Partial: four ensure_* checks (tightness gating with the bypass flag, placeholder sort conflicts, unsupported roles, formula representation) are proved exact on the real code. The graph algorithms (tightness, private recursion), "
+                "the set-operation based checks and their call sites are outside the verifiers' reach and not decided.",
+        "design_ref": "DESIGN.md §5 C11",
+        "note": "is_tight is an uninterpreted function here; petgraph/HashMap code, 5 ensure_* methods with iterator adapters and the decompose glue are not verified.",
+        "technique": "contract-based deductive verification (Verus) of mechanically extracted real code",
+    },
     "C12": {
         "text": "Verus proves on the real transition_axioms (and everything below it down to asp::Program::predicates and Predicate::to_formula) that exactly the formulas forall X (hp(X) -> tp(X)) for the predicates occurring in either "
                 "program are emitted, and that each is true whenever H is included in T. The symbol-order chain and the static preamble are written by fmt code / are static text and are not decided.",
